@@ -99,12 +99,17 @@ def unit_program(r, k):
         return ('un', '-', e) if v < 0 else e
     main = []
     vars_ = {}
+    literal_mode = (k // 6) % 2 == 1     # every other program: the operands are literals (a compiler may evaluate those itself)
     for t in '%&!#$':
         for i in range(2):
             nm = f'zu{"ilsdt"["%&!#$".index(t)]}{i}{t}'
             v = r.choice(UNIT_VALS[t])
             main.append(['let', ('var', nm, t), lit(t, v), False])
-            vars_.setdefault(t, []).append(('var', nm, t))
+            if literal_mode:
+                le = lit(t, v)
+                vars_.setdefault(t, []).append(('par', le) if le[0] == 'un' else le)
+            else:
+                vars_.setdefault(t, []).append(('var', nm, t))
     main.append(['dim', 'dim', 'zuarr', '&', [(None, ('lit', '%', 5))]])
     stmts = []
     combos = unit_combos()
@@ -159,7 +164,7 @@ def unit_program(r, k):
             stmts.append(['print', [['e', ('var', 'zurt$', '$')]]])
     procs = [{'kind': 'sub', 'name': 'zusub', 'rtype': None, 'params': [('zp#', '#', 0)], 'pstyle': [False], 'static': False,
               'body': [['print', [['e', ('bin', '*', ('var', 'zp#', '#'), ('lit', '%', 2))]]]]}]
-    return {'deftype': None, 'types': [], 'main': main + stmts, 'procs': procs, 'features': ['unit']}
+    return {'deftype': None, 'types': [], 'main': main + stmts, 'procs': procs, 'features': ['unit', 'unit-literal-operands'] if literal_mode else ['unit']}
 
 
 # operator precedence and associativity: flat expressions "a op1 b op2 c" (every ordered pair of binary operators), with a
